@@ -24,8 +24,8 @@ CLAIMED = {
          "per-request bound and linear total are theorems for all inputs (the total under the decidable hypothesis lin_b, evaluated on the corpus); refuted on the F15 class; bytes per element are outside the model (K3a)", "DESIGN.md 7 C09"),
  "C10": ("Coq theorems over Runtime.v (reader contracts for all n, r, max; all 2^32 boolean words) + K3 exhaustive grid correspondence with header.rs + independent contract oracle",
          "theorems quantify over every buffer, length and maximum; the model of header.rs is tied to the code on the exhaustive (n, r, max) grid", "DESIGN.md 7 C10"),
- "C11": ("Coq: generic index depends only on the set of items (order independence via C13); source scan for nondeterminism; real generator in fresh processes / shared Generator; layout and permutation variants compared item by item",
-         "order independence of the one hash-based index is a theorem; process-level determinism is observed", "DESIGN.md 7 C11"),
+ "C11": ("Coq: C11_ast_reorder / C11_spec_reorder -- for EVERY permutation of the declarations (distinct names) the constant and type indexes are the very same key-sorted lists and the generic set is the same (Reorder.v; via C13 and C12_walk); source scan for nondeterminism; real generator in fresh processes / shared Generator; random layouts, every trivia class at every token gap, cross-reference families in all orders, compared item by item",
+         "order independence of the whole Ast is a theorem at tree level; layout independence (text level) and process-level determinism are observed", "DESIGN.md 7 C11"),
  "C12": ("Coq: C12_walk / C12_ast / C12_source_tie -- for EVERY declaration list (any number of items, fields, fall-through groups) the walker yields exactly the declared items and every type/constant/enum member is retrievable by name, generics = opaque reachability; K1 (model front end = real pest + Ast::new), K5 (Source.tree_of = erased parse tree and Ast of item_of = real Ast per generated list); independent reference AST from a random declaration model under random layout",
          "tree-level theorem for all declaration lists; the text-to-tree step (PEG on every layout) is checked per spec by K1/K5, not proved: PARTIAL there", "DESIGN.md 7 C12"),
  "C13": ("Coq: C13_reach -- for ANY item list, name in generic index iff opaque reachable (soundness by invariant, completeness by closedness of the fixpoint), C13_fuel, C13_emitted_*; exhaustive graphs k<=2, sampled k=3, chains of depth >= 12",
